@@ -453,9 +453,9 @@ fn run(ctx: &mut Ctx) {
     sweep_days(ctx);
     helpers_check(ctx);
     let n = ctx.n(300_000, 40_000_000);
-    ctx.run("point", n, point_strategy, oracle_point);
+    ctx.run_fast("point", n, point_strategy, oracle_point);
     let n = ctx.n(100_000, 10_000_000);
-    ctx.run("pair", n, pair_strategy, oracle_pair);
+    ctx.run_fast("pair", n, pair_strategy, oracle_pair);
     ctx.assumptions.push("time-of-day tolerance: |result - exact(serial+offset)*86400000| <= 0.5 ms + one ulp of the f64 product + one ulp of the offset-adjusted serial".into());
     ctx.assumptions.push("serial 0 (1900 system), the fictitious day [60,61) and negative serials: only absence of panics is asserted; (9e7,1e8) near chrono's last year is not asserted".into());
 }
